@@ -197,4 +197,19 @@ func checkC16(c *Ctx, r *Result, tier string) {
 
 	// ---- R16f: no live references in results -------------------------------------------------------
 	c16NoLiveReferences(c, r, dbgIface)
+
+	// ---- R16g: the debugger's tables are written only with its lock held exclusively -------------
+	// (the same rule as C15 R15c: a command handler that writes a table under the read lock races
+	// with the next command — concurrent map writes are a fatal error, not a panic one can recover)
+	var ifuncs []*ssa.Function
+	for _, fn := range c.ModFuncs() {
+		if c.PkgOf(fn) == "interpreter" {
+			ifuncs = append(ifuncs, fn)
+		}
+	}
+	nG := debuggerGuardedBy(c, r, newGuardChecker(c, lfs), "R16g", ifuncs)
+	r.Floor("R16g", nG, 40)
+
+	// ---- R16h: scope chains end in nil -------------------------------------------------------------
+	c16ScopeChainEnds(c, r, dfuncs)
 }
